@@ -232,7 +232,11 @@ func (d *SDef) describe(F []string) IntroD {
 		case "union":
 			ps := []RefD{}
 			for _, m := range t.Members {
-				ps = append(ps, namedRef("OBJECT", m))
+				// (schema.New guarantees that a member is visible whenever its union is; the
+				// visible schema's possible types are the visible members in any case)
+				if visible(m) {
+					ps = append(ps, namedRef("OBJECT", m))
+				}
 			}
 			sortRefs(ps)
 			td.PossibleTypes = &ps
